@@ -113,7 +113,17 @@ class StepBudgetExceeded(BaseException):
 # ---------------------------------------------------------------------------
 
 
-def _contexts():
+_CTX_CACHE: dict[bool, Any] = {}
+
+
+def _contexts(eager: bool = True):
+    """(builtin-only context, context with every dialect registered).  ``eager`` loads
+    all 80 dialects up front (4-5 s once per process, before any worker is forked) so that
+    no dialect *import* ever happens inside a timed parse: a first use of e.g. the x86
+    dialect costs > 10**5 Python calls, which a 46-character input would be blamed for,
+    and which made outcomes depend on what the process had parsed before."""
+    if eager in _CTX_CACHE:
+        return _CTX_CACHE[eager]
     from xdsl.context import Context
     from xdsl.dialects import get_all_dialects
     from xdsl.dialects.builtin import Builtin
@@ -121,8 +131,12 @@ def _contexts():
     full = Context(allow_unregistered=True)
     for n, f in get_all_dialects().items():
         full.register_dialect(n, f)
+    if eager:
+        for n in list(full.registered_dialect_names):
+            full.load_registered_dialect(n)
     core = Context(allow_unregistered=True)
     core.load_dialect(Builtin)
+    _CTX_CACHE[eager] = (core, full)
     return core, full
 
 
@@ -144,7 +158,7 @@ def _build_file(path: str) -> list[tuple[str, int, str, str]]:
     from xdsl.parser import Parser
     from xdsl.printer import Printer
 
-    core, full = _contexts()
+    core, full = _contexts(eager=False)
     out: list[tuple[str, int, str, str]] = []
     try:
         text = open(path, encoding="utf-8").read()
@@ -316,6 +330,30 @@ def _site(tb: Any) -> tuple[str, str]:
     return inner_x, inner_p
 
 
+_GRAMMAR_FN = None
+
+
+def _budget_site(tb: Any) -> tuple[str, str]:
+    """Attribution of an exceeded time budget: the clock trips in whatever leaf helper
+    happens to run (``Token.text``, ``_current_token``), which differs from run to run of
+    the same overrun.  Blame the innermost *grammar-level* function on the stack instead
+    (``parse_*``, ``_parse_*``, ``resolve_*``, ``_register_*``, ``lex``, ``_lex_*``)."""
+    global _GRAMMAR_FN
+    import re
+
+    if _GRAMMAR_FN is None:
+        _GRAMMAR_FN = re.compile(r"(?:^|\.)_?(?:parse|lex|resolve|register)[A-Za-z0-9_]*$")
+    inner_x = inner_p = best = "?"
+    for fn, qn in _frames(tb):
+        if "/xdsl/" in fn:
+            inner_x = qn
+            if _is_core(fn):
+                inner_p = qn
+                if _GRAMMAR_FN.search(qn) and "<" not in qn:
+                    best = qn
+    return inner_x, (best if best != "?" else inner_p)
+
+
 def _core_raise_site(tb: Any) -> bool:
     """True iff the innermost xdsl frame of the traceback is in the core parser files."""
     last = ""
@@ -361,10 +399,10 @@ class Judge:
             res["outcome"] = "diagnostic"
         except StepBudgetExceeded as e:
             res["outcome"] = "step-budget"
-            res["site"] = _site(e.__traceback__)
+            res["site"] = _budget_site(e.__traceback__)
         except WatchdogTimeout as e:
             res["outcome"] = "timeout" if phase == "parse" else "verify-slow"
-            res["site"] = _site(e.__traceback__)
+            res["site"] = _budget_site(e.__traceback__)
         except RecursionError:
             res["outcome"] = "inconclusive-recursion"
         except MemoryError:
@@ -844,6 +882,13 @@ class StreamEngine(Engine):
             _CORPUS = build_corpus(min(16, os.cpu_count() or 1))
         if _JUDGE is None:
             _JUDGE = Judge()
+            # warm-up (untimed, unjudged): function-level lazy imports of the parser paths
+            for i in range(0, len(_CORPUS.w1), max(1, len(_CORPUS.w1) // 40)):
+                for wl in (0, 1):
+                    try:
+                        _JUDGE.parse(_CORPUS.text(wl, i), wl)
+                    except BaseException:  # noqa: BLE001
+                        pass
         self.known_sigs = frozenset(load_known_findings(self.prop))
         _ENG = self
 
